@@ -470,7 +470,7 @@ class FnPrinter:
         if cat == 'sv':
             return '((sv){%s, sizeof(%s) - 1})' % (text, text)
         if cat == 'str':
-            return 'str_from_lit(%s, sizeof(%s) - 1)' % (text, text)
+            return 'str_from_sv(((sv){%s, sizeof(%s) - 1}))' % (text, text)
         self.fail(n, 'user defined literal of %r' % t)
 
     # calls ------------------------------------------------------------
